@@ -4,7 +4,7 @@
 cd "$(dirname "$0")/.." || exit 2
 ./check build || exit 2
 bad=0
-for p in C18 C12 C14 C15 C02 C03 C07 C20 C11 C08 C09 C10; do
+for p in ${THOROUGH_ORDER:-C08 C10 C09 C12 C20 C07 C18 C14 C15 C02 C03 C11}; do
   s=$(date +%s)
   out=$(VERIF_EVIDENCE_DIR="$(pwd)/thorough-evidence" VERIF_REPLAY_DIR="$(pwd)/thorough-replays" ./check $p --tier thorough 2>&1); rc=$?
   e=$(date +%s)
